@@ -586,8 +586,39 @@ def gen_history(rng, idx):
     ops = []
     for _ in range(rng.randint(0, 5)):
         p = rng.randint(0, 4)
-        ops.append((p, gen_array(rng, name, p, ncell, rng.random() < 0.4)))
+        if rng.random() < 0.35:
+            # augmented assignment  model.<p> op= k
+            opname = rng.choice(AUG_OPS)
+            k = rng.choice([2.0, 0.5, 3.0, -1.0, 0.0, 1.0, float('nan'), float('inf'), 1e4, -1e4, 400.0,
+                            2.0 ** -900, rng.randint(-64, 64) / 8.0])
+            ops.append(('aug', p, opname, k))
+        else:
+            ops.append(('set', p, gen_array(rng, name, p, ncell, rng.random() < 0.4)))
     return dict(map=name, mapping=mapping, shape=shape, init=init, ops=ops)
+
+
+AUG_OPS = ['*=', '+=', '-=', '/=']
+
+
+def aug_apply(a, opname, k):
+    """numpy's in-place operator, as `a op= k` performs it (returns the same object)."""
+    import operator
+    f = {'*=': operator.imul, '+=': operator.iadd, '-=': operator.isub, '/=': operator.itruediv}[opname]
+    return f(a, k)
+
+
+def float_to_val(x):
+    import math as _m
+    x = float(x)
+    if x != x:
+        return ('nan',)
+    if x == float('inf'):
+        return ('pinf',)
+    if x == float('-inf'):
+        return ('ninf',)
+    if x == 0.0 and _m.copysign(1.0, x) < 0:
+        return ('negzero',)
+    return ('fin', x)
 
 
 def np_vals(vals, shape):
@@ -601,6 +632,8 @@ def err_code(e):
     msg = str(e)
     if isinstance(e, AttributeError):
         return 4
+    if isinstance(e, TypeError):
+        return 5
     if isinstance(e, ValueError):
         if 'was initiated without' in msg:
             return 1
@@ -635,14 +668,29 @@ def run_history_impl(h):
         try:
             model = emg3d.Model(grid, mapping=h['mapping'], **kw)
         except Exception as e:
+            h['rops'] = []
             return (err_code(e), [], None)
         steps = []
-        for p, vals in h['ops']:
+        rops = []        # resolved ops for the model: (augmented?, p, cell values handed to the setter)
+        for op in h['ops']:
+            p = op[1]
             try:
-                setattr(model, PNAMES[p], np_vals(vals, h['shape']))
+                if op[0] == 'set':
+                    rops.append((False, p, op[2]))
+                    setattr(model, PNAMES[p], np_vals(op[2], h['shape']))
+                else:
+                    stored = getattr(model, PNAMES[p])
+                    if stored is None:
+                        rops.append((True, p, []))
+                    else:
+                        res = aug_apply(np.array(stored, order='F', copy=True), op[2], op[3])
+                        rops.append((True, p, [float_to_val(x) for x in res.ravel('F')]))
+                    # exactly what `model.<p> op= k` does: read, operate in place, assign back
+                    setattr(model, PNAMES[p], aug_apply(getattr(model, PNAMES[p]), op[2], op[3]))
                 steps.append(0)
             except Exception as e:
                 steps.append(err_code(e))
+        h['rops'] = rops
     case = {'isotropic': 0, 'HTI': 1, 'VTI': 2, 'triaxial': 3}.get(model.case, model.case)
     state = []
     for pn in PNAMES:
@@ -651,10 +699,21 @@ def run_history_impl(h):
     return (0, steps, (case, state))
 
 
+def show_ops(h):
+    out = []
+    for op in h['ops']:
+        if op[0] == 'set':
+            out.append(['set', PNAMES[op[1]], [list(x) for x in op[2]]])
+        else:
+            out.append(['aug', PNAMES[op[1]], op[2], repr(op[3])])
+    return out
+
+
 def history_coq(h):
     def opt(v):
         return 'None' if v is None else '(Some [' + '; '.join(to_coq(x) for x in v) + '])'
-    ops = '; '.join(f"({PCOQ[p]}, [" + '; '.join(to_coq(x) for x in vals) + "])" for p, vals in h['ops'])
+    ops = '; '.join(f"({V.coq_bool(aug)}, {PCOQ[p]}, [" + '; '.join(to_coq(x) for x in vals) + "])"
+                    for aug, p, vals in h['rops'])
     init = ' '.join(opt(v) for v in h['init'])
     return f"Eval vm_compute in run_history {V.coq_str(h['mapping'])} {init} [{ops}]."
 
@@ -668,7 +727,7 @@ def parse_history(ans, h):
     pos += 1
     if init != 0:
         return (init, [], None)
-    nops = len(h['ops'])
+    nops = len(h['rops'])
     steps = ints[pos:pos + nops]
     pos += nops
     case = ints[pos]
@@ -697,6 +756,7 @@ def parse_history(ans, h):
 def check_histories(ctx, n, dis, hist, samples):
     rng = ctx.rng
     hs = [gen_history(rng, i) for i in range(n)]
+    impls = {id(h): run_history_impl(h) for h in hs}      # also resolves augmented ops (h['rops'])
     chunks = [hs[i:i + 100] for i in range(0, len(hs), 100)]
     texts = []
     for ci, ch in enumerate(chunks):
@@ -719,16 +779,20 @@ def check_histories(ctx, n, dis, hist, samples):
         for h, ans in zip(ch, answers):
             nev += 1
             model = parse_history(ans, h)
-            impl = run_history_impl(h)
+            impl = impls[id(h)]
             key = f"init={impl[0]} steps={sorted(set(map(str, impl[1])))}"
             hist[key] = hist.get(key, 0) + 1
+            for op, st in zip(h['ops'], impl[1]):
+                if op[0] == 'aug':
+                    kk = f"aug {op[2]} -> {st}"
+                    hist[kk] = hist.get(kk, 0) + 1
             if impl[0] != 0 or any(s != 0 for s in impl[1]):
                 nontriv.add((h['map'], str(impl[0]), tuple(map(str, impl[1])),
                              tuple(v is None for v in h['init'])))
             if len(samples) < 6 and (impl[0] != 0 or impl[1]):
                 samples.append({'mapping': h['mapping'], 'shape': list(h['shape']),
                                 'init': [None if v is None else [list(x) for x in v] for v in h['init']],
-                                'ops': [[PNAMES[p], [list(x) for x in vals]] for p, vals in h['ops']],
+                                'ops': show_ops(h),
                                 'outcome': [impl[0], impl[1]]})
             same = (impl[0] == model[0] and list(impl[1]) == list(model[1]))
             if same and impl[2] is not None:
@@ -742,7 +806,7 @@ def check_histories(ctx, n, dis, hist, samples):
                 dis.append({'what': 'construct/assign history: implementation and validation model disagree',
                             'case': {'mapping': h['mapping'], 'shape': list(h['shape']),
                                      'init': [None if v is None else [list(x) for x in v] for v in h['init']],
-                                     'ops': [[PNAMES[p], [list(x) for x in vals]] for p, vals in h['ops']]},
+                                     'ops': show_ops(h)},
                             'impl': repr(impl)[:600], 'model': repr(model)[:600]})
     return nev, len(nontriv)
 
@@ -806,7 +870,10 @@ def correspondence(ctx):
                 "array / scalar, in-place mu_r/epsilon_r), every build compared with eta_of/zeta_of on the "
                 "CURRENT conductivities; histories: construct (5% unknown map name, each given "
                 "property malformed with p=0.12) then 0..5 assignments (malformed with p=0.4: zero, -0.0, "
-                "negative, nan, +-inf; assignments to None properties); distinct non-trivial = distinct "
+                "negative, nan, +-inf, values beyond the float range of 10**x/exp(x); assignments to None "
+                "properties; 35% of the ops are augmented assignments `model.p op= k`, op in *= += -= /=, k in "
+                "{2, .5, 3, -1, 0, 1, nan, inf, +-1e4, 400, 2^-900, random}, performed exactly as Python does: "
+                "in-place numpy operator on the stored array, then the setter with that array); distinct non-trivial = distinct "
                 "(map, outcome sequence, None pattern) with at least one rejection",
         'samples': samples[:8],
         'traces_validated_against_impl': n_h,
@@ -1050,11 +1117,63 @@ def search_acceptance(rng, n_extra):
     return None
 
 
+AUG_KS = [2.0, 0.5, -1.0, 0.0, float('nan'), float('inf'), float('-inf'), 1e4, -1e4, 400.0, -400.0,
+          1e-320, 1e300, 3.0]
+
+
+def search_acceptance_aug(rng, n_extra):
+    """Augmented assignment `model.<slot> op= k` for every mapping, slot (x, y, z, mu_r,
+    epsilon_r) and operator: accepted exactly when plain assignment of the resulting values would
+    be, i.e. iff the back-mapped conductivity (mu_r / epsilon_r: the value) of every resulting
+    cell is finite and > 0."""
+    import emg3d
+    grid = emg3d.TensorMesh([[1.0, 1.0], [1.0], [1.0]], (0, 0, 0))
+    ks = list(AUG_KS) + [rng.choice([1, -1]) * 10 ** rng.uniform(-3, 3) for _ in range(n_extra)]
+    for name in NAMES:
+        mp = impl_map(name)
+        with np.errstate(all='ignore'):
+            good = mp.forward(np.array([2.0, 0.25]).reshape(2, 1, 1))
+        for slot in range(5):
+            for opname in AUG_OPS:
+                for k in ks:
+                    kw = {PNAMES[i]: (good.copy() if i < 3 else np.array([1.5, 3.0]).reshape(2, 1, 1))
+                          for i in range(5)}
+                    with np.errstate(all='ignore'), warnings.catch_warnings():
+                        warnings.simplefilter('ignore')
+                        model = emg3d.Model(grid, mapping=name, **kw)
+                        before = np.array(getattr(model, PNAMES[slot]), copy=True)
+                        res = aug_apply(before.copy(), opname, k)
+                        chk = mp.backward(res.copy()) if slot < 3 else res
+                        required = 'accept' if bool(np.all(np.isfinite(chk)) and np.all(chk > 0)) else 'reject'
+                        try:
+                            setattr(model, PNAMES[slot], aug_apply(getattr(model, PNAMES[slot]), opname, k))
+                            got = 'accept'
+                        except ValueError:
+                            got = 'reject'
+                        # the same values through plain assignment on a fresh model
+                        try:
+                            m2 = emg3d.Model(grid, mapping=name, **kw)
+                            setattr(m2, PNAMES[slot], res.copy())
+                            plain = 'accept'
+                        except ValueError:
+                            plain = 'reject'
+                    if got != required or got != plain:
+                        return {'signature': f'augmented assignment {opname} on {PNAMES[slot]} accepted/rejected '
+                                             f'differently from plain assignment of the same values ({name})',
+                                'kind': 'acceptance_aug', 'map': name, 'slot': PNAMES[slot], 'op': opname,
+                                'k': repr(k), 'k_hex': float.hex(k) if k == k else 'nan',
+                                'stored_before': [repr(float(x)) for x in before.ravel()],
+                                'resulting_values': [repr(float(x)) for x in res.ravel()],
+                                'observed': got, 'plain_assignment': plain, 'required': required}
+    return None
+
+
 def search(ctx, broken):
     rng = ctx.rng
     hits = []
     for f, args in ((search_history, (rng, 200 if ctx.thorough else 60)),
                     (search_acceptance, (rng, 40 if ctx.thorough else 6)),
+                    (search_acceptance_aug, (rng, 10 if ctx.thorough else 2)),
                     (search_validation, (rng, 300 if ctx.thorough else 80)),
                     (search_maps, (rng, 200 if ctx.thorough else 60)),
                     (search_coeffs, (rng, 40 if ctx.thorough else 12))):
@@ -1095,6 +1214,27 @@ def replay(ctx, payload):
         return search_coeffs(rng, 12, solve=(kind == 'solve')) is None
     if kind == 'history':
         return search_history_case(int(fi['seed'])) is None
+    if kind == 'acceptance_aug':
+        import emg3d
+        k = float('nan') if fi['k_hex'] == 'nan' else float.fromhex(fi['k_hex'])
+        mp = impl_map(fi['map'])
+        slot = PNAMES.index(fi['slot'])
+        grid = emg3d.TensorMesh([[1.0, 1.0], [1.0], [1.0]], (0, 0, 0))
+        with np.errstate(all='ignore'), warnings.catch_warnings():
+            warnings.simplefilter('ignore')
+            good = mp.forward(np.array([2.0, 0.25]).reshape(2, 1, 1))
+            kw = {PNAMES[i]: (good.copy() if i < 3 else np.array([1.5, 3.0]).reshape(2, 1, 1))
+                  for i in range(5)}
+            model = emg3d.Model(grid, mapping=fi['map'], **kw)
+            res = aug_apply(np.array(getattr(model, fi['slot']), copy=True), fi['op'], k)
+            chk = mp.backward(res.copy()) if slot < 3 else res
+            required = 'accept' if bool(np.all(np.isfinite(chk)) and np.all(chk > 0)) else 'reject'
+            try:
+                setattr(model, fi['slot'], aug_apply(getattr(model, fi['slot']), fi['op'], k))
+                got = 'accept'
+            except ValueError:
+                got = 'reject'
+        return got == required
     if kind == 'acceptance':
         p = float('nan') if fi['value_hex'] == 'nan' else float.fromhex(fi['value_hex'])
         mp = impl_map(fi['map'])
